@@ -362,7 +362,7 @@ def extract_vmem():
                 last = i + 1
             elif ch == ';': last = i + 1
         for h in depth_hdrs[1:]:
-            if not (h == 'unsafe' or h.endswith('= unsafe') or re.match(r'for\s+\w+\s+in\s+\[', h)):
+            if not (h in ('', 'unsafe') or h.endswith('= unsafe') or re.match(r'for\s+\w+\s+in\s+\[', h)):
                 problems.append(f'`{mm.group(1).strip("( ")}` of vmem_helper::new is conditional (inside `{h[:40]}`)'); break
     return calls, (drops_first, halves, forgotten), problems
 
